@@ -14,9 +14,9 @@ Modelled (file.py:function cited at each definition):
   _list_cases_recurse_nested/get_case`.
 
 Strings are `List Char` (`Str`) so that `startswith`, `split('|')` and substring search are plain list
-functions the theorems can talk about.  Three switches in `Cfg` select between the code as it is and
-the one-line repairs proposed for three reader defects (see Props/C17.lean); the harness sets them by
-probing the real functions, so the model always follows the tree that is checked.
+functions the theorems can talk about.  Four switches in `Cfg` select between the code as it is and
+the repairs proposed for four reader defects (see Props/C17.lean and known_findings.d/C17.json); the
+harness sets them by probing the real functions, so the model always follows the tree that is checked.
 Not modelled: bracket classes `[seq]` of fnmatch, discrete variables, MPI ranks other than 0,
 formats older than 14, `out_stream` printing.
 Core Lean only.
@@ -262,6 +262,9 @@ structure Cfg where
   solverIndexLast : Bool := false
   /-- `SqliteCaseReader.get_case(int)`: resolve indices of problem cases too (current: not). -/
   getCaseProblem : Bool := false
+  /-- `CaseTable.list_cases(source)` for system/solver tables: use the `source` column recorded in
+  `global_iterations` (current: re-derive the source from the coordinate string). -/
+  sourceFromRows : Bool := false
 
 inductive Err where
   | notFound        -- RuntimeError('Case not found ...')
@@ -272,6 +275,8 @@ inductive Err where
   | unbound         -- UnboundLocalError (coordinate source with recurse=False)
   | valueError      -- ValueError (substring not found)
   deriving DecidableEq
+
+deriving instance DecidableEq for Except
 
 /-- `str.split(sep)`. -/
 def splitOn (sep : Char) : Str → List Str
@@ -389,10 +394,15 @@ def filterBySource (cfg : Cfg) (k : Kind) (source : Str) : List Str → Except E
     let tl ← filterBySource cfg k source rest
     pure (if s = source then key :: tl else tl)
 
+/-- the recorded source of a row with the `root.` prefix the reader's source names carry -/
+def rowSource (r : Row) : Str := if isRootPath r.source then r.source else "root.".toList ++ r.source
+
 /-- `CaseTable.list_cases(source)`. -/
 def Db.tableListCases (cfg : Cfg) (db : Db) (k : Kind) (source : Str) : Except Err (List Str) :=
   if source.isEmpty then .ok (db.keys k)
   else if source.contains '|' then .ok ((db.keys k).filter (fun key => source.isPrefixOf key))
+  else if cfg.sourceFromRows && (k = .system || k = .solver) then
+    .ok (((db.table k).filter (fun r => rowSource r = source)).map (·.name))
   else filterBySource cfg k source (db.keys k)
 
 /-- First row of a table with this name (`SELECT * FROM table WHERE iteration_coordinate=?`). -/
@@ -410,21 +420,27 @@ def mapOpt {α β : Type} (f : α → Option β) : List α → Option (List β)
     | some b, some bs => some (b :: bs)
     | _, _ => none
 
+/-- The first of the driver, system and solver tables that has a case of this name. -/
+def Db.findAny3 (db : Db) (name : Str) : Option Row :=
+  match db.findIn .driver name with
+  | some r => some r
+  | none =>
+    match db.findIn .system name with
+    | some r => some r
+    | none => db.findIn .solver name
+
+/-- ... then the problem table (`get_case`, `_list_cases_recurse_flat`). -/
+def Db.findAny (db : Db) (name : Str) : Option Row :=
+  match db.findAny3 name with
+  | some r => some r
+  | none => db.findIn .problem name
+
 /-- `SqliteCaseReader._list_cases_recurse_flat(coord)`: all cases among the first
 `parent.counter` global iterations whose coordinate string starts with `coord`. -/
 def Db.listRecurseFlat (db : Db) (coord : Str) : Except Err (List Str) :=
   let n? : Option Nat :=
     if coord.isEmpty then some db.global.length
-    else
-      match db.findIn .driver coord with
-      | some r => some r.counter
-      | none =>
-        match db.findIn .system coord with
-        | some r => some r.counter
-        | none =>
-          match db.findIn .solver coord with
-          | some r => some r.counter
-          | none => (db.findIn .problem coord).map (·.counter)
+    else (db.findAny coord).map (·.counter)
   match n? with
   | none => .error .notFound
   | some n =>
@@ -456,13 +472,7 @@ recursive call is on a case with a smaller counter). -/
 def Db.listRecurseNested (db : Db) : Nat → Str → Except Err Tree
   | 0, _ => .error .indexError
   | fuel + 1, coord =>
-    let parent? : Option Row :=
-      match db.findIn .driver coord with
-      | some r => some r
-      | none =>
-        match db.findIn .system coord with
-        | some r => some r
-        | none => db.findIn .solver coord
+    let parent? : Option Row := db.findAny3 coord
     match parent? with
     | none => .error .notFound
     | some parent =>
@@ -561,18 +571,9 @@ def Db.listCases (cfg : Cfg) (db : Db) (source : Option Str) (recurse flat : Boo
 /-- `SqliteCaseReader.get_case(case_id)` for a coordinate: first table (driver, system, solver,
 problem) that has a row of this name. -/
 def Db.getCaseByName (db : Db) (name : Str) : Except Err Row :=
-  match db.findIn .driver name with
+  match db.findAny name with
   | some r => .ok r
-  | none =>
-    match db.findIn .system name with
-    | some r => .ok r
-    | none =>
-      match db.findIn .solver name with
-      | some r => .ok r
-      | none =>
-        match db.findIn .problem name with
-        | some r => .ok r
-        | none => .error .notFound
+  | none => .error .notFound
 
 /-- Python list indexing with a possibly negative index. -/
 def pyIndex {α : Type} (l : List α) (i : Int) : Option α :=
@@ -604,33 +605,54 @@ def descendants (coords : List Coord) (c : Coord) : List Coord :=
   coords.filter (fun k => c.isPrefixOf k)
 
 /-- The contract of a recorded log that the descendant query relies on; checked by the driver on
-every real log. `coords[i]` is the structured coordinate of row `i`.
+every real log. `coords[i]` is the recording stack of row `i` (`none` for a problem case).
 * names contain no `|`;
 * post-order and uniqueness: a row whose coordinate extends row `i`'s coordinate is not after `i`;
 * per parent, the counters of one name do not decrease in time. -/
 def barFree (c : Coord) : Bool := c.all (fun p => !p.1.contains '|')
 
-def postOrderAt (coords : List Coord) (i : Nat) (c : Coord) : Bool :=
-  (coords.drop (i + 1)).all (fun k => !c.isPrefixOf k)
+def postOrderAt (later : List (Option Coord)) (c : Coord) : Bool :=
+  later.all (fun k? => match k? with
+                       | some k => !c.isPrefixOf k
+                       | none => true)
 
 /-- `k` continues `c` with a counter at the last level of `c`: `c = P ++ [(nm, a)]`,
 `k = P ++ (nm, b) :: _`; returns `(a, b)`. -/
 def sameSlot : Coord → Coord → Option (Nat × Nat)
-  | [(n, a)], (m, b) :: _ => if n = m then some (a, b) else none
-  | p :: c, q :: k => if p = q then sameSlot c k else none
-  | _, _ => none
+  | [], _ => none
+  | _ :: _, [] => none
+  | p :: c, q :: k =>
+    match c with
+    | [] => if p.1 = q.1 then some (p.2, q.2) else none
+    | _ :: _ => if p = q then sameSlot c k else none
 
-def monoAt (coords : List Coord) (i : Nat) (c : Coord) : Bool :=
-  (coords.take i).all (fun k => match sameSlot c k with
-                               | some (a, b) => decide (b ≤ a)
-                               | none => true)
+def monoAt (earlier : List (Option Coord)) (c : Coord) : Bool :=
+  earlier.all (fun k? => match k? with
+                         | some k => (match sameSlot c k with
+                                      | some (a, b) => decide (b ≤ a)
+                                      | none => true)
+                         | none => true)
 
-def enumFrom {α : Type} : Nat → List α → List (Nat × α)
-  | _, [] => []
-  | i, a :: as => (i, a) :: enumFrom (i + 1) as
+/-- `earlier` holds the rows before the current one, most recent first. -/
+def contractFrom (earlier : List (Option Coord)) : List (Option Coord) → Bool
+  | [] => true
+  | none :: rest => contractFrom (none :: earlier) rest
+  | some c :: rest =>
+    barFree c && !c.isEmpty && postOrderAt rest c && monoAt earlier c &&
+      contractFrom (some c :: earlier) rest
 
-def logContract (coords : List Coord) : Bool :=
-  coords.all barFree &&
-  (enumFrom 0 coords).all (fun ic => postOrderAt coords ic.1 ic.2 && monoAt coords ic.1 ic.2)
+def logContract (coords : List (Option Coord)) : Bool := contractFrom [] coords
+
+/-- The recorder's `_counter` stored with row `i` is `i + 1` (one recorder, never restarted). -/
+def countersFrom : Nat → List Row → Bool
+  | _, [] => true
+  | i, r :: rest => decide (r.counter = i + 1) && countersFrom (i + 1) rest
+
+def countersSync (rows : List Row) : Bool := countersFrom 0 rows
+
+/-- no name is recorded twice -/
+def nodupB : List Str → Bool
+  | [] => true
+  | a :: as => !as.contains a && nodupB as
 
 end OMV.C17
